@@ -144,6 +144,17 @@ def run(tier, rep, ev):
                 (o.status != "ok" or not o.value["session"][-1].get("ok", True))]
     iso = sandbox.run_cases(roundtrip.ppmd_selfcheck, [cases[k] for k in suspects], timeout=120, nproc=8)
     ppmd_bad = {k for k, r in zip(suspects, iso) if not (r.status == "ok" and r.value == "ok")}
+    # second isolation: the exact calls py7zr made on pyppmd's decoder, logged and replayed against pyppmd alone (a crash counts)
+    rest = [k for k in suspects if k not in ppmd_bad]
+    if rest:
+        logs = {k: os.path.join(base, f"ppmd-{k}.log") for k in rest}
+        sandbox.run_cases(roundtrip.ppmd_log_calls, [dict(cases[k], ppmd_log=logs[k], wd=cases[k]["wd"] + "-l") for k in rest], timeout=300, nproc=8)
+        rep2 = sandbox.run_cases(roundtrip.ppmd_replay_calls, [logs[k] for k in rest], timeout=300, nproc=8)
+        for k, r in zip(rest, rep2):
+            if not (r.status == "ok" and r.value == "ok"):
+                ppmd_bad.add(k)
+                suspects_idx = suspects.index(k)
+                iso[suspects_idx] = r if r.status != "ok" else sandbox.Outcome("ok", r.value)
     for k in sorted(ppmd_bad):
         r = iso[suspects.index(k)]
         rep.violation("delegated-codec:pyppmd", f"pyppmd alone fails on the data of configuration {cases[k]['chain']}: {r.status} {r.value}",
